@@ -310,8 +310,23 @@ def random_schema(rnd, tries=60, **kw):
         sc.leaf = ref.leaf
         sc.spec = spec
         sc.stats = stats
+        if not _can_generate(sc):
+            stats["no_document_generated"] = stats.get("no_document_generated", 0) + 1
+            continue
         return sc
     return None
+
+
+def _can_generate(sc):
+    import random as _r
+
+    from .gen import DocGen
+    try:
+        for k in range(2):
+            DocGen(sc, _r.Random(k)).doc()
+        return True
+    except Exception:
+        return False
 
 
 def _mk_sch(spec, sid):
@@ -335,7 +350,7 @@ def _mk_sch(spec, sid):
     sc.leaf = ref.leaf
     sc.spec = spec
     sc.stats = {}
-    return sc
+    return sc if _can_generate(sc) else None
 
 
 def mark_schema(rnd, tries=20):
